@@ -21,7 +21,7 @@ Obs(l) ==
 
 GenNext ==
     /\ ~Ended
-    /\ Encrypt(1) \/ Decrypt(1) \/ \E cls \in Classes : Wire(1, cls)
+    /\ (\E ty \in 65..71 : Encrypt(1, ty)) \/ Decrypt(1) \/ \E cls \in Classes : Wire(1, cls)
     /\ hist' = Append(hist, Obs(last'))
 
 GenSpec == GenInit /\ [][GenNext]_gvars
